@@ -12,6 +12,19 @@ HOSTILE_STR = ['\U00010080\u0080', '\U00010080\u0080a', 'a\U00010080\u0080', '\u
                '\ufeff', '\ufeffa', '=', '==', 'a=', '\x00', '\x00\x00\x00', 'ÿþ',
                'a\nb', 'line1\r\nline2', 'IEX\n(iwr x)', '\n', 'a\tb']
 
+# surrogates: high (D800..DBFF) and low (DC00..DFFF), with the range DC80..DCFF that the 'surrogateescape'
+# error handler would turn into the raw bytes 80..FF; lone, in the wrong order, next to ASCII, next to
+# non-ASCII and non-BMP characters. None of these strings has a byte encoding: rejection is the only outcome.
+SURR = ['\ud800', '\ud83d', '\udbff', '\udc00', '\udc7f', '\udc80', '\udca4', '\udcc3', '\udce2', '\udcff',
+        '\udd00', '\ude00', '\udfff']
+SURR_STR = sorted(set(
+    [f(c) for c in SURR for f in (lambda c: c, lambda c: 'a' + c, lambda c: c + 'a', lambda c: 'cmd' + c, lambda c: c + c,
+                                  lambda c: 'é' + c, lambda c: c + '€', lambda c: '\U0001f600' + c, lambda c: c + '\U00010080\u0080',
+                                  lambda c: '\\*' + c, lambda c: c + ' ')]
+    + ['\udcc3\udca4', 'x\udcc3\udca4y', '\udce2\udc82\udcac', '\udc80\udcff', '\udcff\udc80', '\udc00\ud800', '\ude00\ud83d',
+       '\udc80\ud800', '\udfff\udbff', '\ud800\ud800', '\udbff\udbff', 'a\ud800b\udc80c', '\ud83d \ude00', '\udc80' * 3,
+       '\udcf0\udc9f\udc98\udc80', 'cmd\udc80', '\udc80*', '?\udcff']))
+
 ENC = ["wide", "utf16be", "utf16"]
 B64 = ["base64", "base64offset"]
 CHAINS = [[b] for b in B64] + [[e] for e in ENC] + [[e, b] for e in ENC for b in B64]
@@ -54,7 +67,7 @@ def mk(rng, mods, payloads):
 
 
 def rand_payload(rng, n):
-    pool = TOK * 4 + HOSTILE
+    pool = TOK * 4 + HOSTILE + SURR
     return "".join(rng.choice(pool) for _ in range(n))
 
 
@@ -86,6 +99,21 @@ def gen_chain(tier, rng):
         others = CHAINS_C + ODD_CHAINS
         for ch in CHAINS + (rng.sample(others, 8) if quick else others):
             out.append(mk(rng, ch, [{"s": w}]))
+    # strings without a byte encoding (surrogates) on base64, base64offset and the other chains
+    for w in SURR_STR:
+        for ch in [["base64"], ["base64offset"]] + (rng.sample(CHAINS[2:] + CHAINS_C, 3) if quick else CHAINS[2:] + CHAINS_C):
+            out.append(mk(rng, ch, [{"s": w}]))
+    # the whole range that 'surrogateescape' would map to bytes (quick) / every surrogate code point (thorough)
+    for cp in (range(0xDC80, 0xDD00) if quick else range(0xD800, 0xE000)):
+        form = rng.choice([lambda c: c, lambda c: 'a' + c, lambda c: c + 'Z', lambda c: 'ab' + c + 'c'])
+        for ch in (["base64"], ["base64offset"]):
+            out.append(mk(rng, ch, [{"s": form(chr(cp))}]))
+        if not quick and 0xDC80 <= cp < 0xDD00:
+            for ch in CHAINS[2:]:
+                out.append(mk(rng, ch, [{"s": form(chr(cp))}]))
+    for ch in CHAINS:
+        out.append(mk(rng, ch, [{"s": "ab"}, {"s": "c\udc80"}]))
+        out.append(mk(rng, ch, [{"s": "\udcc3\udca4"}, {"s": "ä"}]))
     # values that are not strings, lists of values
     for ch in CHAINS + [[], ["contains"]]:
         for o in (5, 1.5, True, None):
@@ -146,11 +174,11 @@ def coutcome(r):
     if "exc" in r:
         if r.get("sigma"):
             tag = {"SigmaValueError": 1, "SigmaPlaceholderError": 2, "SigmaTypeError": 3}.get(r["exc"], 99)
-            return f"(SigmaErr {tag})"
-        return "(Crash 1)"
+            return f"(SigmaErr {tag} : outcome (list ival))"
+        return "(Crash 1 : outcome (list ival))"
     xs = [cival(v) for v in r["vals"]]
     if any(x is None for x in xs): return None
-    return "(Ok " + clist("(" + x + ")" for x in xs) + ")"
+    return "(Ok " + clist("(" + x + ")" for x in xs) + " : outcome (list ival))"
 
 
 def chain_to_coq(c, r):
@@ -289,6 +317,11 @@ def gen_pure(tier, rng):
     for w in HOSTILE + HOSTILE_STR:
         for ch in rng.sample(CHAINS, 2 if quick else 6) + rng.sample(CHAINS_C + ODD_CHAINS, 1 if quick else 4):
             out.append(mk_pure(rng, ch, [{"s": w}]))
+    for w in SURR_STR:
+        for ch in [["base64"], ["base64offset"]] + rng.sample(CHAINS[2:] + CHAINS_C, 1 if quick else 6):
+            out.append(mk_pure(rng, ch, [{"s": w}]))
+    for cp in range(0xDC80, 0xDD00, 8 if quick else 1):
+        out.append(mk_pure(rng, rng.choice([["base64"], ["base64offset"], ["base64offset", "contains"]]), [{"s": "a" + chr(cp + (rng.randrange(8) if quick else 0))}]))
     for ch in CHAINS + [[], ["contains"]]:
         out.append(mk_pure(rng, ch, [{"o": 5}]))
         out.append(mk_pure(rng, ch, [{"s": "ab"}, {"s": "Zc"}]))
@@ -340,6 +373,8 @@ PROPERTY = Property(
          "[wide|utf16be|utf16]?[base64|base64offset]?, one token more exhaustively for base64offset (thorough: and wide|base64offset) and sampled for the others, "
          "a sample with |contains, 70 hostile characters/strings (wildcards, "
          "backslashes, surrogates, astral characters whose UTF-16 bytes are valid UTF-8, BOM, padding characters) on the 11 chains plus 8 of (quick) / all (thorough) 27 further chains incl. |contains and odd orders, "
+         "158 strings with high / low surrogates (lone, wrong order, next to ASCII, non-ASCII and non-BMP characters; the range U+DC80..U+DCFF of the "
+         "surrogateescape handler completely in quick, every surrogate code point in thorough) which must be rejected by every encoding chain, "
          "non-string values, value lists, random payloads up to 40 tokens; for base64offset every case carries 36 surroundings "
          "(prefix length 0..5 x suffix length 0..5, bytes random / boundary / spaces / taken from the payload). "
          "Suite pure: for a subset of these (all single tokens x 22 chains, two/three-token words, the hostile strings, lists, random) the chain is observed eight ways - "
